@@ -248,6 +248,41 @@ impl Prop for Durations {
                 }
             }
         }
+        // spacing: a '-' written directly in front of the count of a one-part group (`2 hours -30 minutes`,
+        // `2 hours-30 minutes`) subtracts all the same
+        let mut glued_checked = false;
+        // (every '-' of the line is written that way: a spaced '-' in front of a run that contains a signed count would
+        // subtract the whole run, sign included)
+        let all_single = c.groups.iter().enumerate().all(|(i, g)| i == 0 || c.plus[i - 1] || g.len() == 1);
+        if acc.ok() && all_single {
+            let mut l = case_line(c);
+            let mut idx = 0usize;
+            let tight = c.groups[0][0].count % 2 == 0;
+            for (i, g) in c.groups.iter().enumerate() {
+                if i > 0 {
+                    if !c.plus[i - 1] && g.len() == 1 {
+                        l.toks[idx + 1].space = 0;
+                        if tight {
+                            l.toks[idx].space = 0;
+                        }
+                        glued_checked = true;
+                    }
+                    idx += 1;
+                }
+                idx += 2 * g.len();
+            }
+            if glued_checked {
+                let text = l.render(",", ".");
+                match w.eval1(&cfg, &c.lang, &text) {
+                    Ok(s2) => {
+                        if !s2.same(&slot) {
+                            acc.fail(format!("{:?} gives {} but with the '-' written directly in front of the count ({:?}) it gives {}", line, slot.brief(), text, s2.brief()));
+                        }
+                    }
+                    Err(e) => acc.fail(e),
+                }
+            }
+        }
         let n_parts: usize = c.groups.iter().map(|g| g.len()).sum();
         let units: std::collections::BTreeSet<u8> = c.groups.iter().flatten().map(|p| p.unit).collect();
         let carry = c.groups.iter().flatten().any(|p| matches!((p.unit, p.count), (0, 59..=61) | (1, 59..=61) | (2, 23..=25) | (3, 6..=8) | (3, 29..=31) | (3, 364..=366) | (4, 4..=5) | (4, 52..=53) | (5, 11..=13) | (5, 24..=25)));
@@ -264,6 +299,7 @@ impl Prop for Durations {
             .class_if(inexact_conv, "as-conversion-floors")
             .class_if(c.plus.iter().any(|p| !*p), "has-subtraction")
             .class_if(exp < 0, "negative-result")
+            .class_if(glued_checked, "minus-glued-to-the-count")
             .class_if(carry, "carry-boundary-count")
             .class_if(c.groups.iter().any(|g| g.len() >= 2), "juxtaposed-parts")
             .class_if(n_parts >= 5, "five-or-more-parts")
